@@ -785,7 +785,7 @@ def _n4_authenticator(vc):
 
 
 # =============================================================================================== D2w
-@harness('D2w', targets='kopf._core.engines.daemons._wait_for_instant_exit', props=['C09'],
+@harness('D2w', targets='kopf._core.engines.daemons._wait_for_instant_exit', props=['C09', 'C06', 'C20'],
          clauses=['changes_nothing', 'no_wait_when_done', 'timeout_mode', 'cycles_mode', 'no_wait_without_settings'],
          canaries=['canary.never_waits', 'canary.uses_all_cycles'],
          trusted=['aiotasks.wait(tasks, timeout=T) by contract S4w: returns after a suspension once the tasks are done or T has elapsed',
